@@ -69,6 +69,9 @@ func hooksC20() Hooks {
 		}
 		r.noteState()
 	}
+	// a reopen that is left unobserved may still have changed the files (offline tools, eager
+	// migration): the targets are no longer "only appended to" either
+	h.Refresh = func(r *Run) { markDirty(r) }
 	h.OnOp = func(r *Run, op *Op) bool {
 		if op.K != "backup" {
 			return false
